@@ -43,11 +43,19 @@ Retries(s, d) == IF d.k = "act" THEN s.cfg.retries ELSE s.cfg.cretries
 InScope(d, sc) == sc = 0 \/ d.b = sc
 Infl(s) == {o \in Names(s) : s.inflN[o] > 0}
 InflSeqs(s, b) == {s.dd[o].s : o \in {x \in Infl(s) : s.dd[x].k = "act" /\ s.dd[x].b = b}}
-FailedSeqs(s, b) == Cardinality({o \in SeqsOf(s, b) : s.dur[o].st = FA})
+\* failed sequences of block b: written Failed, or (after a restart) in flight at the crash with an action whose
+\* last durable attempt failed - recovery declares those Failed in memory before anything is written again
+FailedAtCrash(s, q) ==
+    /\ s.crashed /\ s.cdur[q].st = RU
+    /\ \E a \in ActsOfSeq(s, D(s, q).b, D(s, q).s) :
+          \/ s.cdur[a].st = FA
+          \/ s.cdur[a].st = RU /\ s.cdur[a].natt >= 1 /\ s.cdur[a].last # "ok"
+FailedSeqs(s, b) == Cardinality({o \in SeqsOf(s, b) : s.dur[o].st = FA \/ FailedAtCrash(s, o)})
 RunCalls(s, o) == s.tot[o] - s.rb[o]
 BypassedScope(s, sc) == HasGroup(s, sc, "bypass") /\ s.grpRes[Grp(sc, "bypass")] = "ok"
 \* a check group failed: observed at the plugin in this process lifetime, or durably Failed at the crash
-GroupFailed(s, b, g) == HasGroup(s, b, g) /\ (s.grpFail[Grp(b, g)] \/ (s.crashed /\ s.cdur[Grp(b, g)].st = FA))
+\* (a group that is run again after the restart is judged by that run)
+GroupFailed(s, b, g) == HasGroup(s, b, g) /\ (s.grpFail[Grp(b, g)] \/ (s.crashed /\ s.cdur[Grp(b, g)].st = FA /\ s.grpRuns[Grp(b, g)] = 0))
 BlockChecksFailed(s, b) == \E g \in CheckGroups : GroupFailed(s, b, g)
 PlanGroupFailed(s, g) == GroupFailed(s, 0, g)
 Live(s) == ~s.crashed          \* first process lifetime of the plan (C01..C07 are stated for it)
@@ -258,7 +266,9 @@ C08_RunningBeforeInvoke(s, e) == (IsP(e) /\ s.waited = <<>>) => s.dur[e.obj].st 
 C08_AttemptBeforeNext(s, e) == (IsP(e) /\ s.waited = <<>> /\ ~s.frozen) =>
     /\ s.dur[e.obj].natt >= RunCalls(s, e.obj)
     /\ (D(s, e.obj).k = "act" /\ D(s, e.obj).a > 1) =>
-          LET p == ActName(D(s, e.obj).b, D(s, e.obj).s, D(s, e.obj).a - 1) IN s.dur[p].st = CO /\ s.dur[p].last = "ok"
+          \* the previous action's successful attempt is durable (after a restart its status may still read Running)
+          LET p == ActName(D(s, e.obj).b, D(s, e.obj).s, D(s, e.obj).a - 1) IN
+          s.dur[p].natt >= 1 /\ s.dur[p].last = "ok" /\ (Live(s) => s.dur[p].st = CO)
 C08_TerminalBeforeRelease(s, e) ==
     /\ (e.ev = "WaitRet" /\ (Live(s) \/ Resumed(s))) =>
           /\ Terminal(s.dur["p"].st)
@@ -374,6 +384,31 @@ Holds(c, s, e) ==
 
 Violated(s, e) == {c \in ClauseNames : ~Holds(c, s, e)}
 
+(* The clauses that can be false for an event of a given type (every clause is an implication whose antecedent *)
+(* fixes the event type).  ViolatedFast evaluates only those; EngineTraceSelf.cfg checks on recorded traces that *)
+(* it agrees with Violated at every step, so the table cannot silently switch a clause off.                      *)
+ClausesFor(t) ==
+  CASE t = "PStart" -> {"C01_BlockOrder", "C01_ActionOrder", "C01_PreGate", "C01_PostAfterSeqs", "C01_DeferredLast", "C02_Bound", "C02_OneBlock",
+                        "C03_AfterFailedBlock", "C04_Quiescent", "C05_Bound", "C05_StopOnFinal", "C06_BypassSkips", "C06_PreFailBlocks",
+                        "C06_ContInitialFail", "C08_RunningBeforeInvoke", "C08_AttemptBeforeNext", "C09_NoRedoAction", "C09_NoRedoFinished",
+                        "C09_OnlyInFlight", "C10_Quiescent", "C11_Untouched", "C11_AgedOut", "C12_AtMostOnce"}
+    [] t = "W" -> {"C03_Bound", "C03_StopExact", "C03_BlockVerdict", "C04_Quiescent", "C05_OneAttemptPerCall", "C06_ContInitialFail",
+                   "C07_ContFailureFails", "C08_TerminalBeforeRelease", "C10_Quiescent", "C11_Untouched", "C12_AtMostOnce"}
+    [] t = "PEnd" -> {"C04_Quiescent", "C05_Overrun"}
+    [] t = "WaitRet" -> {"C03_AfterFailedBlock", "C04_Terminal", "C04_NothingRunning", "C04_Quiescent", "C04_Consistent", "C04_Times", "C04_Reason",
+                         "C04_FailedCheckFailsPlan", "C05_Recorded", "C06_BypassSkips", "C06_BypassFailRuns", "C06_PreFailBlocks",
+                         "C07_ContFailureFails", "C07_DeferredOnce", "C07_DeferredFails", "C08_TerminalBeforeRelease",
+                         "C10_Terminal", "C10_NothingRunning", "C10_Quiescent", "C10_Consistent", "C10_Times", "C10_DeferredRan", "C10_SameOutcome",
+                         "C11_Untouched", "C11_AgedOut", "C11_Resumed"}
+    [] t = "Read" -> {"C04_Stable", "C10_Stable", "C11_Untouched", "C11_AgedOut"}
+    [] t = "R" -> {"C08_Monotone"}
+    [] t = "Hang" -> {"C04_WaitReturns", "C10_Terminates", "C12_NoHang"}
+    [] t = "HoldTimeout" -> {"C07_ContKeepsRunning"}
+    [] t = "StartRet" -> {"C12_SecondStartRejected", "C12_StaleRejected"}
+    [] t \in {"ProcDied", "Panic"} -> {"C12_NoDeath"}
+    [] OTHER -> {}
+ViolatedFast(s, e) == {c \in ClausesFor(e.ev) : ~Holds(c, s, e)}
+
 (***************************************************************************)
 (* Observation update.                                                     *)
 (***************************************************************************)
@@ -417,8 +452,10 @@ ObsPEnd(s, e) ==
                            /\ (e.out \in {"perm", "wrongtype", "wrongtr"} \/ i >= Retries(s, d) + 1)
                         THEN [@ EXCEPT ![GroupOfAct(d)] = TRUE] ELSE @]
 
-ObsCrash(s, e) ==
-  LET sn == SnapOf(e.snap) IN
+\* a crash ends a process lifetime: everything that is local to a lifetime starts afresh
+ObsCrash(s0, e) ==
+  LET sn == SnapOf(e.snap)
+      s == InitObs(s0.cfg) IN
   [s EXCEPT !.crashed = TRUE,
             !.cdur = [o \in DOMAIN sn |-> [st |-> sn[o].st, natt |-> sn[o].natt, last |-> sn[o].last]],
             !.dur = [o \in DOMAIN sn |-> [st |-> sn[o].st, natt |-> sn[o].natt, last |-> sn[o].last]],
